@@ -11,6 +11,7 @@ CONSTANTS
   MaxPeer = 2
   MaxPush = 0
   Faults = {}
+  MaxFaults = 1
   RespShapes <- RS_ok
   Abandon = FALSE
   MaxArr = 3
